@@ -358,34 +358,30 @@ def _parse_file(content, recs):
     return ids
 
 
-def _read(listing, case, recs):
+def _read(listing, ctxo, recs):
     """(ids per managed file oldest..newest incl. active last, ids of top archive, ids of active) or error str"""
-    b, c, limit, pre, gz, pattern, file, mode0, nohook, init, ops = case
+    slot_paths, pre_plain, gz, filep = ctxo
     d = dict(listing)
-    # pre-existing archives are plain text; they stay plain while they move up the window
-    pre_plain = set(name_of(pattern, i) for i in range(b, b + c)) if any(
-        (p if isinstance(p, str) else p.decode()) in [name_of(pattern, i) for i in range(b, b + c)] for p, _ in init) else ()
     files = []
     top_ids = []
-    for i in range(b + c - 1, b - 1, -1):
-        p = name_of(pattern, i).encode()
+    for n, p in enumerate(slot_paths):
         if p in d:
             content = d[p]
             if gz and content[:2] == b"\x1f\x8b":      # (a pre-existing archive may be plain text)
                 content = content[2:]
-            elif gz and p.decode() not in pre_plain:
+            elif gz and not pre_plain:
                 return "archive %s is not a complete gzip stream: %r" % (p.decode(), content)
             ids = _parse_file(content, recs)
             if ids is None:
                 return "archive %s does not consist of whole records: %r" % (p.decode(), content)
             files.append(ids)
-            if i == b + c - 1:
+            if n == 0:
                 top_ids = ids
     act = []
-    if file.encode() in d:
-        act = _parse_file(d[file.encode()], recs)
+    if filep in d:
+        act = _parse_file(d[filep], recs)
         if act is None:
-            return "active file does not consist of whole records: %r" % d[file.encode()]
+            return "active file does not consist of whole records: %r" % d[filep]
     files.append(act)
     return files, top_ids, act
 
@@ -396,6 +392,11 @@ def direct_oracle(case, ci):
     recs = {}
     acked = set()
     names = {name_of(pattern, i): i for i in range(b, b + c)}
+    slot_paths = [name_of(pattern, i).encode() for i in range(b + c - 1, b - 1, -1)]
+    # pre-existing archives are plain text; they stay plain while they move up the window
+    pre_plain = any((p if isinstance(p, str) else p.decode()) in names for p, _ in init)
+    ctxo = (slot_paths, pre_plain, gz, file.encode())
+    cache = {}
 
     def tag(content):
         e = content.find(b">")
@@ -418,7 +419,10 @@ def direct_oracle(case, ci):
         trunc_now = (op is not None and ((op[0] == 1 and not op[1]) or (died and not op[2][2])))
         for (lst, where) in states:
             what = "initial build" if i == 0 else "op %d %s, %s" % (i - 1, _opd(op), where)
-            r = _read(lst, case, recs)
+            key = (tuple(lst), len(recs))
+            r = cache.get(key)
+            if r is None:
+                r = cache[key] = _read(lst, ctxo, recs)
             if isinstance(r, str):
                 return what + ": " + r
             files, top_ids, act = r
